@@ -266,19 +266,21 @@ Fixpoint cycles_of (cs : list cause) : list (list name) :=
   | _ :: r => cycles_of r
   end.
 
-(* ------------------------------------------- how a cycle is named (src/query.rs:465-511)
+(* ------------------------------------------- how a cycle is named (src/query.rs, the recover_cycle functions)
 
    recover_cycle / recover_cycle_salvage receive the participants of the cycle as query keys
-   (`import("m")`, `global_inner("m")`, `typechecked_source_module(("m", None))`), keep the keys that
-   start with `import(`, drop the last one (the query that closes the cycle is listed first and
-   last) and print `cycle -> module`.
+   (`import("m")`, `global_inner("m")`, `typechecked_source_module(("m", None))`) and print
+   `cycle -> module`.  Originally they kept the keys that start with `import(` and dropped the last
+   one (the query that closes the cycle is listed first and last): [report_asis].  Since
+   fixes/C15-cycle-chain-revalidated-import.patch (applied to /repo) `cycle_modules` keeps `import(`
+   and `global_inner(` keys, removes adjacent duplicates and drops the closing entry: [report_fixed].
 
    Shape of the participant list (an ASSUMPTION about gluon-salsa, observed by instrumenting a
    scratch copy, not re-established on every run): for the cycle m1 -> ... -> mk -> m1 entered at
    m1, every member contributes global_inner and typechecked_source_module, and its `import` key only
    when that query is executed in this revision ([exec m]) rather than re-validated from an older
-   memo.  The harness checks the implementation-side consequence: is the printed chain an import
-   chain of the sources. *)
+   memo.  The harness checks the implementation-side consequence on every run: the printed chain
+   must be an import chain of the sources. *)
 
 Inductive qkey := KImport (m : name) | KGlobal (m : name) | KTypecheck (m : name).
 
@@ -298,7 +300,7 @@ Definition cycle_keys (exec : name -> bool) (c : list name) : list qkey :=
     KImport m1 :: KGlobal m1 :: KTypecheck m1 :: flat_map (frame exec) rest ++ [KImport m1]
   end.
 
-(* src/query.rs:470-480 as it stands *)
+(* the original extraction (before the patch) *)
 Definition report_asis (ks : list qkey) : list name :=
   removelast (map key_name (filter is_import ks)).
 
@@ -313,8 +315,8 @@ Fixpoint dedup_adj (l : list name) : list name :=
     end
   end.
 
-(* fixes/C15-cycle-chain-revalidated-import.patch: import and global_inner keys, dedup, drop the
-   closing entry *)
+(* src/query.rs `cycle_modules` (fixes/C15-cycle-chain-revalidated-import.patch): import and
+   global_inner keys, dedup, drop the closing entry *)
 Definition report_fixed (ks : list qkey) : list name :=
   let ms := dedup_adj (map key_name (filter is_import_or_global ks)) in
   match ms with
